@@ -93,6 +93,34 @@ def c03Emitted (a b : AgInfo) (out : List Dg) : Verdicts :=
 
 /-! ## C20 -/
 
+/-- C20, "only a controlling agent with the feature enabled can renominate" — judged on the wire, whoever caused the
+request (`RenominateCandidate` or the automatic check): no Binding request carrying a nomination VALUE leaves an agent that
+is in the controlled role or was built without `WithRenomination`; and (C03) no USE-CANDIDATE leaves an agent in the
+controlled role.  The role is the agent's own (`ctl` of its digest before and after the operation: an operation that
+changes the role is not judged), not the role attribute of the message — `sendNominationRequest` always writes
+ICE-CONTROLLING.  `pa`/`ca` (`pb`/`cb`): digests of A (B) before / after the operation. -/
+def c20Issuer (a b : AgInfo) (pa ca : AgD) (pb cb : Option AgD) (out : List Dg) : Verdicts :=
+  out.foldl (fun (acc : Verdicts) d =>
+    if d.kind != .req || !d.binding then acc else
+    let who : Option (String × AgInfo × Bool × Bool) :=
+      if d.tid.startsWith "A#" then some ("A", a, pa.ctl, ca.ctl)
+      else if d.tid.startsWith "B#" then
+        match pb, cb with
+        | some pb, some cb => some ("B", b, pb.ctl, cb.ctl)
+        | _, _ => none
+      else none
+    match who with
+    | none => acc
+    | some (w, x, ctl0, ctl1) =>
+      let controlled := !ctl0 && !ctl1
+      acc ++
+      (match d.nom with
+       | some v =>
+         (if controlled then [("C20", s!"agent {w} is in the controlled role and sent a nomination with value {v} ({d.src}>{d.dst} {d.tid}): only a controlling agent can renominate")] else []) ++
+         (if !x.renom then [("C20", s!"agent {w} was built without renomination and sent a nomination with value {v} ({d.src}>{d.dst} {d.tid})")] else [])
+       | none => []) ++
+      (if d.uc && controlled then [("C03", s!"agent {w} is in the controlled role and sent USE-CANDIDATE ({d.src}>{d.dst} {d.tid})")] else [])) []
+
 def flagsChanged (p c : AgD) : Bool :=
   c.pairs.any fun q =>
     match findPairId p q.id with
